@@ -385,6 +385,13 @@ def check_property(pid, tier, seed):
         "trusted_base": sorted(assumptions) + extra_res.get("trusted", []),
         "functions_under_contract": functions,
         "by_backend": by_solver,
+        # obligations that needed more than the first (3 s) solver round or more than 2 s: the ones to watch for
+        # verdict flips under load (a flip is exit 2 = undecided, never a violation)
+        "slow_obligations": sorted(
+            [{"obligation": r.name, "solver": r.solver, "time_s": round(r.time_s, 2), "attempts": len(getattr(r, "attempts", None) or [])}
+             for _k, r in real if r.ok and (r.time_s > 2.0 or len(getattr(r, "attempts", None) or []) > 1)],
+            key=lambda d: -d["time_s"])[:25],
+        "confirmed_by_two_configs": sum(1 for _k, r in real if r.ok and len(getattr(r, "confirmed_by", None) or []) >= 2),
         "solver_time_s": round(solver_time, 2),
         "guards": {"canaries_and_covers": len(guards), "groups": len(groups), "failed_to_prove_as_required": sum(1 for rs in groups.values() if any(r.ok for r in rs)), "canary_sat": sum(1 for _, r in guards if r.status == "refuted")},
         "runtime_crosscheck": {"label": "bounded", **rt_total},
